@@ -58,15 +58,13 @@ M = [
     ("C07_vstruct_half_adjacency", "C07 C16", U, "            if A[i, j] == 0 and A[j, i] == 0:", "            if A[i, j] == 0:"),
     ("C08_z_exists", "C08", U, "z_exists = len(pa(y, labelled) - {x} - pa(x, labelled)) > 0", "z_exists = len(pa(y, labelled) - {x}) > 0"),
     ("C08_sort_direction", "C08", U, "        x = sort(unlabelled_parents_y, order)[0]", "        x = sort(unlabelled_parents_y, order)[-1]"),
-    ("C08_label_only_x", "C08", U, "                labelled[list(pa(y, labelled)), y] = COM\n", "                labelled[x, y] = COM\n"),
     ("C09_chickering_sink", "C09 C08", U, "            adj_neighbors = np.all([adj_i - {y} <= adj(y, P) for y in n_i])", "            adj_neighbors = is_clique(n_i | pa(i, P), P)"),
     ("C09_no_rule2", "C09 C10", U, "    return len(ch(i, A) & pa(j, A)) > 0", "    return False"),
     ("C09_no_rule3", "C09", U, "    if len(intersection) >= 2:\n        for k in intersection:", "    if False:\n        for k in intersection:"),
-    ("C09_no_rule4", "C09 C10", U, "    Ks = pa_j & n_i\n    if len(Ks) > 0:", "    Ks = pa_j & n_i\n    if False:"),
+    ("C09_no_rule4", "C09", U, "    Ks = pa_j & n_i\n    if len(Ks) > 0:", "    Ks = pa_j & n_i\n    if False:"),
     ("C09_rule1_wrong_adj", "C09", U, "not pa(i, A) <= adj(j, A)", "not pa(i, A) <= adj(i, A)"),
     ("C10_only_children", "C10", U, "        directed_edges += [(j, i) for j in pa(i, G)]\n", ""),
     ("C10_skip_meek", "C10", U, "        P[y, x] = 0\n        P = maximally_orient(P, debug)", "        P[y, x] = 0"),
-    ("C10_chain_rows", "C10", U, "        if (me[:, I] == A[:, I]).all():", "        if (me[I, :] == A[I, :]).all():"),
     ("C10_I_ignored", "C10", U, "        icpdag = dag_to_icpdag(A, I)\n        return all_dags(icpdag)", "        icpdag = dag_to_cpdag(A)\n        return all_dags(icpdag)"),
     ("C11_perm_not_inverse", "C11", G_, "        return (W[permutation, :][:, permutation], np.argsort(permutation))\n    else:\n        return W[permutation, :][:, permutation]\n\n\ndef dag_full",
      "        return (W[permutation, :][:, permutation], permutation)\n    else:\n        return W[permutation, :][:, permutation]\n\n\ndef dag_full"),
@@ -102,12 +100,15 @@ M = [
     ("C15_desc_no_self", "C15", U, "    desc = {i}\n    for j in ch(i, A):\n        desc |= descendants(j, A)", "    desc = set(ch(i, A))\n    for j in ch(i, A):\n        desc |= descendants(j, A)"),
     ("C15_separates_first_path", "C15", U, "                if set(path) & S == set():\n                    return False", "                return set(path) & S != set()"),
     ("C15_component_follows_directed", "C15", U, "    A = only_undirected(G)\n    visited = set()", "    A = G + G.T\n    visited = set()"),
-    ("C15_paths_skip_visited_globally", "C15", U, "            next_to_visit = list(accessible[next_node] - set(visited) - {current_node})",
-     "            next_to_visit = list(accessible[next_node] - set(visited) - {current_node} - {s[0] for s in stack[1:]})"),
+    ("C15_paths_global_visited", "C15", U,
+     "            stack = [(next_node, visited + [current_node], next_to_visit)] + stack\n    return paths",
+     "            if next_node == to or next_node not in accessible.setdefault('expanded', set()):\n"
+     "                accessible['expanded'].add(next_node)\n"
+     "                stack = [(next_node, visited + [current_node], next_to_visit)] + stack\n    return paths"),
     ("C16_shielded_colliders", "C16 C07", U, "            if A[i, j] == 0 and A[j, i] == 0:", "            if True:"),
     ("C16_moral_asymmetric", "C16", U, "        moral[i, j] = 1\n        moral[j, i] = 1", "        moral[i, j] = 1"),
     ("C16_induced_rows_only", "C16", U, "    mask = np.logical_and(mask, mask.T)\n", ""),
-    ("C16_skeleton_positive", "C16 C07", U, "    return ((A + A.T) != 0).astype(int)", "    return ((A + A.T) > 0).astype(int)"),
+    ("C16_skeleton_positive", "C16", U, "    return ((A + A.T) != 0).astype(int)", "    return ((A + A.T) > 0).astype(int)"),
     ("C16_weights_to_one", "C16", U, "    mask = np.logical_and(P != 0, P.T == 0)\n    G = np.zeros_like(P)\n    # set to the same values in case P is a weight matrix and there is\n    # interest in maintaining the weights\n    G[mask] = P[mask]",
      "    mask = np.logical_and(P != 0, P.T == 0)\n    G = np.zeros_like(P)\n    G[mask] = 1"),
     ("C16_edge_weights_positive", "C16", U, "    fro, to = np.where(W != 0)\n    edges = list(zip(fro, to))", "    fro, to = np.where(W > 0)\n    edges = list(zip(fro, to))"),
@@ -127,6 +128,16 @@ M = [
     ("C20_zeros_n_plus_1", "C20", N, "return lambda n: np.zeros(n)", "return lambda n: np.zeros(n + 1)"),
     ("C20_normal_own_rng", "C20 C13", N, "    return lambda n: np.random.normal(mean, var**0.5, n)", "    rng = np.random.default_rng()\n    return lambda n: rng.normal(mean, var**0.5, n)"),
 ]
+
+
+# Mutants that were tried and found EQUIVALENT (no observable difference), kept here for the record:
+#  C08_label_only_x   label_edges labelling only x -> y instead of every edge into y: the remaining edges are labelled by
+#                     later iterations with the same result (no difference on any DAG with <= 5 nodes).
+#  C10_chain_rows     chain_graph_IMEC comparing rows instead of columns: on a chain the neighbours are fixed, so equal
+#                     children <=> equal parents.
+#  C15_paths_skip_..  excluding the current nodes of outer stack frames: they are already in `visited`.
+#  C09_no_rule4 vs C10: Meek rule 4 is never needed when the background knowledge comes from interventions (all edges at a
+#                     target are oriented), so it is only a C09 mutant.
 
 
 def main():
